@@ -1,4 +1,5 @@
 import JivaVerif.Lemmas.CtlStep
+import JivaVerif.Lemmas.CtlKeep
 /-! `AddReplica` and `Start` preserve the invariant. -/
 namespace Jiva
 namespace Ctl
